@@ -201,6 +201,7 @@ Theorem unsafe_header_rejected : forall a x,
 Proof.
   intros a x Hin Hne Hbad Hct Hck q. unfold to_creq.
   destruct (parse_request_url _ _ _ _ _ _); try discriminate.
+  destruct (negb (forallb valid_cookie (a_rck a ++ a_cck a))); [discriminate|].
   rewrite (valid_headers_bad _ x); [discriminate| |assumption].
   apply in_add_cookies; [|assumption]. apply in_body_headers; [|assumption].
   apply in_merge_headers; assumption.
